@@ -89,6 +89,22 @@ def r13_2(facts, res, roots):
                     return facts.callee_name(c)
         return None
 
+    # a reason written for a method also covers the private pieces that method is split into
+    piece_cache = {}
+
+    def piece_of(g):
+        if not str(g.get("vis", "")).startswith("Restricted"):
+            return ()
+        if not piece_cache:
+            for name in {k[0] for k in R13_2_REASONS}:
+                for h in facts.fns.values():
+                    if h["path"].split("::")[-1] == name and h["crate"] in ("xml_dom", "xml_info") and "body" in h:
+                        for x in facts.family(h):
+                            if x["id"] != h["id"]:
+                                piece_cache.setdefault(x["id"], set()).add(name)
+            piece_cache.setdefault(None, set())
+        return piece_cache.get(g["id"], ())
+
     for fid in sorted(reach, key=lambda i: facts.fns[i]["path"]):
         f = facts.fns[fid]
         if f["crate"] not in ("xml_dom", "xml_info") or fid not in mm or mutset.is_constructor(f["path"]):
@@ -112,7 +128,7 @@ def r13_2(facts, res, roots):
                 st["fresh_receiver_skipped"] += 1
                 res.oblige(1, True)
                 continue
-            if (fshort, mshort) in R13_2_REASONS:
+            if (fshort, mshort) in R13_2_REASONS or any((r, mshort) in R13_2_REASONS for r in piece_of(f)):
                 st["reasoned"] += 1
                 res.oblige(1, True)
                 continue
